@@ -289,6 +289,20 @@ def gen_c15(rnd, n, thorough=False):
             add('hmany', 'hmany f %d %d %d %s' % (rnd.pick([-1, 0]), now, len(pts), ' '.join('%d %016x' % p for p in pts)))
         tags['kind'] = kind
         cases.append({'id': 'c15-%d' % c, 'lines': lines, 'tags': tags})
+    # a header that is valid except for an INNER archive whose retention does not fit 31 bits (its wrapped value
+    # looks short), in a file long enough: Open refuses it; whatever is opened answers fetches with windows
+    # ending far after the clock without panicking
+    for j, lay in enumerate([[(2 ** 20, 4095), (2 ** 21, 1023)], [(65536, 65535), (131072, 16383)][:2] if thorough else [(2 ** 20, 2048), (2 ** 21, 1023)]]):
+        now = 1700000000
+        sl = {0: [(now - now % lay[0][0], fbits(1.0))], 1: [(now - now % lay[1][0], fbits(2.0))]}
+        img = image_py(2, 0x3f000000, lay, sl)
+        ll = ['rawfile f %s' % hx(img), 'hopen f']
+        for a_ in (0, 1, -1):
+            for un in (now, now + lay[0][0], now + 2 * lay[0][0] + 2 ** 20, now + 3 * 2 ** 20, 2 ** 32 - 1):
+                ll.append('hfetch f %d %d %d %d' % (a_, now - 5, un, now))
+                ll.append('hfetch f %d %d %d %d' % (a_, 0, un, now))
+        ll.append('hupd f -1 %d %016x %d' % (now, fbits(3.0), now))
+        cases.append({'id': 'c15-innerwrap-%d' % j, 'lines': ll, 'tags': {'ops': {'hfetch': 30}, 'kind': 'inner_retention_wrap'}})
     # counts whose size in bytes wraps 64 (or 32, 63) bits, with nothing / a little / a point behind them
     lines = []
     wraps = [2 ** 62, 2 ** 62 + 1, 2 ** 63, 2 ** 63 + 2 ** 62, 3 * 2 ** 62 + 1, (2 ** 64 + 8) // 12, (2 ** 64 + 12) // 12, (2 ** 65 + 4) // 12 + 1, (2 ** 64) // 12 + 1,
